@@ -42,11 +42,38 @@ pub struct TreeCfg {
     pub unreadable: bool,
     pub max_levels: usize,
     pub max_entries: usize,
+    /// some regular files get a name that is not valid UTF-8 (spelled with `RAW` in the spec)
+    pub non_utf8: bool,
+}
+
+/// stands for the byte 0xFF (never valid in UTF-8) in the path of a `File` node
+pub const RAW: char = '\u{F8FF}';
+pub const RAW_NAMES: &[&str] = &["\u{F8FF}", "a\u{F8FF}.rs", "\u{F8FF}b", "é\u{F8FF}"];
+
+/// `root` joined with a spec path, `RAW` replaced by the byte 0xFF
+pub fn os_join(root: &Path, rel: &str) -> PathBuf {
+    use std::os::unix::ffi::OsStringExt;
+    let mut bytes: Vec<u8> = Vec::new();
+    for c in rel.chars() {
+        if c == RAW {
+            bytes.push(0xFF);
+        }
+        else {
+            let mut b = [0u8; 4];
+            bytes.extend_from_slice(c.encode_utf8(&mut b).as_bytes());
+        }
+    }
+    if bytes.is_empty() {
+        root.to_path_buf()
+    }
+    else {
+        root.join(std::ffi::OsString::from_vec(bytes))
+    }
 }
 
 impl Default for TreeCfg {
     fn default() -> Self {
-        TreeCfg { links: false, unreadable: false, max_levels: 4, max_entries: 24 }
+        TreeCfg { links: false, unreadable: false, max_levels: 4, max_entries: 24, non_utf8: false }
     }
 }
 
@@ -68,11 +95,18 @@ pub fn gen_tree(t: &mut Tape, cfg: &TreeCfg) -> TreeSpec {
             if pre.len() >= cfg.max_entries {
                 return;
             }
-            let name = t.pick(NAMES);
+            let raw = cfg.non_utf8 && t.chance(24);
+            let name = if raw { t.pick(RAW_NAMES) } else { t.pick(NAMES) };
             if used.contains(&name) {
                 continue;
             }
             used.push(name);
+            if raw {
+                // only regular files get such names (nothing else addresses them by their spelling)
+                let path = if dir.is_empty() { name.to_string() } else { format!("{}/{}", dir, name) };
+                pre.push((path, Pre::File, false));
+                continue;
+            }
             let path = if dir.is_empty() { name.to_string() } else { format!("{}/{}", dir, name) };
             let k = t.weighted(&[45, if level + 1 < cfg.max_levels { 40 } else { 0 }, if cfg.links { 18 } else { 0 }]);
             match k {
@@ -161,7 +195,7 @@ impl Scratch {
         std::fs::write(top.join("r").join("u"), b"")?;
         let mut s = Scratch { top, root: root.clone(), unreadable: Vec::new() };
         for node in &spec.nodes {
-            let p = root.join(&node.path);
+            let p = os_join(&root, &node.path);
             match &node.kind {
                 Kind::Dir => std::fs::create_dir(&p)?,
                 Kind::File => std::fs::write(&p, b"x")?,
